@@ -82,6 +82,7 @@ type vfProdCase struct {
 	FlushProbe bool                `json:"flushProbe,omitempty"` // C16: before closing, wait until every buffered message was sent (a configured trigger must fire without further input)
 	C12       *vfC12Ctl            `json:"c12,omitempty"`
 	StormDelays bool               `json:"stormDelays,omitempty"`
+	Recycle   bool                 `json:"recycle,omitempty"` // the application re-uses the message objects the producer hands back (C01/C05)
 	Sync      int                  `json:"sync,omitempty"`   // >0: SyncProducer variant driven from this many goroutines
 	SyncBatch bool                 `json:"syncBatch,omitempty"`
 }
@@ -116,6 +117,7 @@ type vfProdRun struct {
 	closedOK   bool
 	hang       string
 	stacks     string
+	free       []*ProducerMessage // message objects handed back by the producer, for re-use (Recycle)
 	created    bool
 	createErr  string
 	intercepts []vfIntercept
@@ -475,6 +477,9 @@ func (run *vfProdRun) record(msg *ProducerMessage, ok bool, err error) {
 	o.Seq = run.sim.ev(vfEvent{Kind: "outcome", N: o.Idx, Note: o.Err}, true)
 	run.mu.Lock()
 	run.outcomes = append(run.outcomes, o)
+	if run.c.Recycle && msg != nil && o.Idx >= 0 {
+		run.free = append(run.free, msg)
+	}
 	run.mu.Unlock()
 	atomic.AddInt64(&run.nOutcomes, 1)
 }
@@ -554,6 +559,24 @@ func vfExecProd(c *vfProdCase) *vfProdRun {
 			for i := st.A; i < st.B && i < len(run.msgs) && !stuck && !run.stop.stopped(); i++ {
 				sent := int32(0)
 				msg := run.msgs[i]
+				if c.Recycle {
+					// an application that recycles message objects: what the producer handed back (on Successes() / Errors())
+					// is filled with the next message and submitted again; the producer must treat it like a fresh object
+					run.mu.Lock()
+					var old *ProducerMessage
+					if n := len(run.free); n > 0 {
+						old, run.free = run.free[n-1], run.free[:n-1]
+					}
+					run.mu.Unlock()
+					if old != nil {
+						old.Topic, old.Key, old.Value, old.Headers, old.Metadata = msg.Topic, msg.Key, msg.Value, msg.Headers, msg.Metadata
+						old.Partition, old.Timestamp, old.Offset = msg.Partition, msg.Timestamp, 0
+						run.mu.Lock()
+						run.msgs[i] = old
+						run.mu.Unlock()
+						msg = old
+					}
+				}
 				okc := make(chan struct{})
 				run.sim.ev(vfEvent{Kind: "submit-begin", N: i}, false) // recorded before the message can be in the pipeline
 				go func() {
